@@ -1048,12 +1048,19 @@ package p9
 //@   ghost set $pv.ok:bool = result2
 //@   ensures[C12] @plain-L-is-version-0 str == "9P2000.L" ==> result0 == version9P2000L && result1 == 0 && result2
 //@   ensures[C12] @canonical-google-parses-back forall(n, uint32, str == googleVersion(n) ==> result0 == version9P2000L && result1 == n && result2)
+//@   at strings.Split assume len(ret0) == 4 ==> arg0 == dotted4(ret0[0], ret0[1], ret0[2], ret0[3])
+//@   at strconv.ParseUint assume arg1 == 10 && arg2 == 32 ==> (ret1 == nil <==> isDecimal32(arg0))
+//@   ensures[C12] @nothing-else-is-9P2000L result2 && result0 == version9P2000L ==> str == "9P2000.L" || exists(d, string, str == dotted4("9P2000", "L", "Google", d) && len(d) > 0 && isDecimal32(d))
 //@   ensures[C12] @known-base-only result2 ==> result0 == version9P2000L || result0 == version9P2000U || result0 == version9P2000
 //@   ensures[C12] @other-dialects-keep-their-base str == "9P2000.u" ==> result0 == version9P2000U
 //@   ensures[C12] @other-dialects-keep-their-base2 str == "9P2000" ==> result0 == version9P2000
 //@   safety[C12]
 //@   nopanic
 //@ declare decimal(n uint32) string
+// dotted4(a,b,c,d) = a+"."+b+"."+c+"."+d (what strings.Split(s, ".") of four
+// pieces was split from); isDecimal32(d): d is a base-10 numeral < 2^32.
+//@ declare dotted4(a string, b string, c string, d string) string
+//@ declare isDecimal32(d string) bool
 
 //@ func (*tversion).handle
 //@   use handlerBase dirOpRows localLocks
